@@ -11,32 +11,39 @@ NOTE = ("Trusted: Coq 8.16.1 kernel + vm_compute; no axioms (Print Assumptions c
 
 CHECKS = {
     "C12": dict(
-        category="other",
-        text="Machine-checked for ALL documents (Props/C12.v, 10 theorems) over the model of goto.rs: no handler panics on a "
-             "well-formed document (predicate nav_wf_b, evaluated on every analysed document), no identifier under the cursor or "
-             "no context => no location, predefined entities / int / anonymous array types / primitive-typed variables => no "
-             "location (never an error), definition = declaration, every returned range is the range of a token, implementation "
-             "agrees with declaration whenever it answers, in a global position (name of a declaration, type expression) locals "
-             "are ignored, elsewhere a local wins. The full functional statement (answer = the declaring occurrence under SPL "
-             "scoping, formalised in Spec/Nav.v over the tree) is stated, not proved; the extracted judge decides every instance "
-             "of it on every generated document (command 37), and it holds on all former counterexamples after /repo's repair "
-             "b909979. Decided per input: model = server on every identifier occurrence x column, non-identifier tokens, gaps, "
-             "outside positions, malformed documents; oracle from bindings computed from the derivation (tools/splscope.py).",
+        category="proof",
+        text="Machine-checked (Props/C12.v, 12 theorems) over the model of goto.rs. The functional statement is a theorem for EVERY "
+             "valid program in every layout (C12_valid, C12_valid_text: abstract program of the grammar, well-typed, any text that "
+             "lexes to its tokens, every identifier occurrence of the tree, every cursor position inside its token): declaration "
+             "and definition return exactly the range of the name in the declaration the occurrence is bound to under SPL scoping "
+             "(Spec/Nav.v computes occurrences and bindings from the TREE alone, independently of the symbol table the handlers "
+             "use: locals and parameters of the enclosing procedure before globals, declaration names and type expressions "
+             "globally), implementation does so for procedures, type definition returns the type declaration named by a type "
+             "identifier or, for a variable / parameter, the declaration that created its array type (alias chains followed), and "
+             "predefined entities, int, anonymous array types yield no location. For ALL documents (valid or not): no handler "
+             "panics under nav_wf_b, no identifier / no context => no location, answers are token ranges, definition = "
+             "declaration, global positions ignore locals, elsewhere a local wins. Scope: `valid program` = layout of a well-typed "
+             "abstract program rather than `document without diagnostics` (front-end completeness is not proved); documents as "
+             "built from a text (incremental updates: C01). Tie to the code and failing-input search: model = server on every "
+             "identifier occurrence x column, non-identifier tokens, gaps, outside positions, malformed documents; the judge "
+             "decides every instance of the full statement; independent oracle from the derivation (tools/splscope.py).",
         design_ref="DESIGN.md sections 5 (C12) and 10.2",
-        technique="Coq proof of robustness and answer-shape theorems over a Gallina model of the handlers + correspondence through the binary + scoping oracle"),
+        technique="Coq proof (full functional statement for valid programs via the parser round trip and the typing theorems; robustness and answer shape for all documents) over a Gallina model of the handlers + correspondence through the binary + scoping oracle"),
     "C13": dict(
         category="other",
-        text="Machine-checked for ALL documents (Props/C13.v, 13 theorems) over the model of references.rs: no handler panics "
-             "under nav_wf_b, no identifier => null from all three requests, predefined names are never renamed and user names "
-             "always are, every collected identifier carries the cursor's name, prepareRename null implies rename null and (with a "
-             "context) conversely, prepareRename returns the identifier token's range, every reference is one of rename's edits, "
-             "each edit is the range of a token with the cursor's name, global positions ignore locals. The full statement "
-             "(exactly the occurrences of one binding, Spec/Nav.v) is stated, not proved; the judge decides every instance on every "
-             "generated document, and it holds on all former counterexamples after /repo's repair b909979. Decided per input: "
-             "model = server on all occurrences; oracle: occurrence partition from the derivation and the rename round trip "
-             "(apply with an independent edit model, same diagnostics, same partition, rename back restores the text).",
+        text="Machine-checked (Props/C13.v, 15 theorems) over the model of references.rs. The first half of the property is a theorem "
+             "for EVERY valid program in every layout (C13_valid, C13_valid_text): at every identifier occurrence and every cursor "
+             "position inside it, find-references returns exactly the other occurrences bound to the same declaration, rename one "
+             "edit per occurrence of that binding (declaration included) and nothing else, none for predefined entities, and "
+             "prepare-rename the identifier's range exactly when rename is offered (occurrences and bindings computed from the tree "
+             "alone, Spec/Nav.v; the answers are even equal as lists in tree order). For ALL documents: no handler panics under "
+             "nav_wf_b, no identifier => null, predefined names never renamed, user names always, prepareRename <=> rename, "
+             "references are rename edits, edits are token ranges with the cursor's name. NOT proved: the second half (applying a "
+             "rename to a fresh name keeps diagnostics and binding partition, renaming back restores the text: "
+             "C13_roundtrip_statement) - decided per input by the oracle (apply with an independent edit model, same diagnostics, "
+             "same partition, rename back restores the text). Tie to the code: model = server on all occurrences x columns.",
         design_ref="DESIGN.md sections 5 (C13) and 10.2",
-        technique="Coq proof of robustness and answer-shape theorems over a Gallina model of the handlers + correspondence through the binary + binding/round-trip oracle"),
+        technique="Coq proof (references / rename / prepareRename = the occurrences of one binding, for every valid program, via the parser round trip and the typing theorems; robustness for all documents) over a Gallina model of the handlers + correspondence through the binary + binding/round-trip oracle"),
     "C14": dict(
         category="other",
         text="Machine-checked (Props/C14.v, 13 theorems) over the models of hover.rs and signature_help.rs. For EVERY valid "
@@ -170,7 +177,10 @@ CHECKS = {
              "Stated, not proved: the single-fault statement for the declaration rules and missing-token faults over rendered "
              "texts (C03_full_statement). The check validates the pipeline on rendered programs: well-typed => none; 27+ "
              "single-fault injectors => exactly the prescribed diagnostic(s) on the culprit's byte range; LSP publishDiagnostics "
-             "equal; model = implementation on everything incl. the malformed stream.",
+             "equal; model = implementation on everything incl. the malformed stream; and the same along edit histories "
+             "(introduce / repair one violation with unrelated edits around it, so that the node carrying the diagnostic is reused "
+             "by the incremental parser): after every notification errors() must equal a fresh analysis, a difference predicted by "
+             "Model/UpdateDoc.v is the known finding C03-incparse-diagnostics (root cause C01-incparse), any other a violation.",
         design_ref="DESIGN.md sections 5 (C03) and 10.2",
         technique="Coq proof relating the analysis algorithm to a declarative SPL typing for all trees + correspondence and fault-injection oracle on the implementation"),
     "C04": dict(
